@@ -185,6 +185,9 @@ def length_sweep(binpath, res):
     for tok in ("{payload_len}", "{type_len}", "{}", "{0}", "{type}", "%s", "%d", "$1", "{payload_len}1", "1{payload_len}", "{{}}", "\\0", "{payload}"):
         for pay in (b"", b"abc", b"0123456789ab"):
             pairs.append([tok, pay.hex()])
+    # lengths whose decimal form has eight digits
+    pairs.append(["link", (b"z" * 10_000_000).hex()])
+    pairs.append(["t" * 10_000_001, b"p".hex()])
     # two types that differ only in their last character, same payload: distinct packings
     for n in (40, 50, 54, 60, 64, 70, 100, 150):
         pairs.append(["t" * n + "A", b"same".hex()])
@@ -202,7 +205,7 @@ def length_sweep(binpath, res):
     res.evaluations += len(pairs)
     res.classes["length_sweep_pairs"] += len(pairs)
     for t, p in pairs[::37]:
-        res.distinct.add(common.h8(["pair", t, p[:64]]))
+        res.distinct.add(common.h8(["pair", t[:200], p[:64]]))
 
 
 def enum_decode(binpath, res, maxlen):
